@@ -83,6 +83,7 @@ type c13Stream struct {
 	started  bool
 	held     bool
 	eofed    bool
+	neg      bool                  // still in protocol negotiation: Protocol() is not set yet
 	handler  network.StreamHandler // the handler the host dispatched the stream to when it arrived
 }
 
@@ -162,13 +163,20 @@ func (s *c13Stream) Close() error {
 	}
 	return nil
 }
-func (s *c13Stream) CloseWrite() error         { return nil }
-func (s *c13Stream) CloseRead() error          { return nil }
-func (s *c13Stream) Protocol() protocol.ID     { return s.proto }
+func (s *c13Stream) CloseWrite() error { return nil }
+func (s *c13Stream) CloseRead() error  { return nil }
+func (s *c13Stream) Protocol() protocol.ID {
+	s.mu.Lock()
+	defer s.mu.Unlock()
+	if s.neg {
+		return ""
+	}
+	return s.proto
+}
 func (s *c13Stream) SetProtocol(protocol.ID) error { return nil }
-func (s *c13Stream) Stat() network.Stats       { return network.Stats{Direction: s.dir} }
-func (s *c13Stream) Conn() network.Conn        { return s.conn }
-func (s *c13Stream) ID() string                { return fmt.Sprintf("c13-%d", s.id) }
+func (s *c13Stream) Stat() network.Stats           { return network.Stats{Direction: s.dir} }
+func (s *c13Stream) Conn() network.Conn            { return s.conn }
+func (s *c13Stream) ID() string                    { return fmt.Sprintf("c13-%d", s.id) }
 
 // responses counts the complete varint-delimited messages written so far.
 func (s *c13Stream) responses() int {
@@ -319,6 +327,7 @@ type c13Op struct {
 	S     int    `json:"s,omitempty"`
 	SKind string `json:"kind,omitempty"`
 	Held  bool   `json:"held,omitempty"`
+	Neg   bool   `json:"neg,omitempty"`
 	Good  bool   `json:"good,omitempty"`
 }
 
@@ -344,7 +353,7 @@ func (o c13Op) coq() string {
 	case "emit":
 		return "DEmit " + c13ReachCoq(o.Reach)
 	case "newstream":
-		return fmt.Sprintf("DNewStream %d %s %s", o.S, c13KindCoq(o.SKind), vfBool(o.Held))
+		return fmt.Sprintf("DNewStream %d %s %s %s", o.S, c13KindCoq(o.SKind), vfBool(o.Held), vfBool(o.Neg))
 	case "start":
 		return fmt.Sprintf("DStart %d", o.S)
 	case "msg":
@@ -360,6 +369,7 @@ func (o c13Op) coq() string {
 type c13SObs struct {
 	ID      int    `json:"id"`
 	Kind    string `json:"kind"`
+	Vis     bool   `json:"vis"`
 	Handled int    `json:"handled"`
 	Rst     bool   `json:"rst"`
 	Closed  bool   `json:"closed"`
@@ -381,7 +391,7 @@ func (p c13Snap) coq() string {
 	}
 	it := make([]string, len(p.Streams))
 	for i, s := range p.Streams {
-		it[i] = fmt.Sprintf("so_ %d %s %d %s %s", s.ID, c13KindCoq(s.Kind), s.Handled, vfBool(s.Rst), vfBool(s.Closed))
+		it[i] = fmt.Sprintf("so_ %d %s %s %d %s %s", s.ID, c13KindCoq(s.Kind), vfBool(s.Vis), s.Handled, vfBool(s.Rst), vfBool(s.Closed))
 	}
 	return fmt.Sprintf("sn_ (%s) %s %s %s", m, vfBool(p.Handler), vfBool(p.Window), vfList(it))
 }
@@ -432,7 +442,7 @@ func (dr *c13Driver) snap() c13Snap {
 	for _, id := range ids {
 		s := dr.streams[id]
 		rst, closed := s.flags()
-		p.Streams = append(p.Streams, c13SObs{ID: id, Kind: s.kind, Handled: s.responses(), Rst: rst, Closed: closed})
+		p.Streams = append(p.Streams, c13SObs{ID: id, Kind: s.kind, Vis: s.Protocol() != "", Handled: s.responses(), Rst: rst, Closed: closed})
 	}
 	return p
 }
@@ -526,11 +536,14 @@ func (dr *c13Driver) apply(o c13Op) {
 			s.handler = f
 			if o.Held {
 				s.held = true
+				s.neg = o.Neg
 				return
 			}
 			dr.startHandler(s, f)
 			if parked {
-				dr.winGood = true // (only with a broken demotion) the new goroutine may block on dht.modeLk
+				// (only with a broken demotion) the new goroutine blocks on dht.modeLk
+				dr.winGood = true
+				dr.winMsged[o.S] = true
 			}
 			dr.wait()
 			return
@@ -545,10 +558,17 @@ func (dr *c13Driver) apply(o c13Op) {
 			return
 		}
 		s.held = false
+		wasRst, _ := s.flags()
+		s.mu.Lock()
+		s.neg = false // the host sets the protocol, then calls the handler
+		s.mu.Unlock()
 		dr.startHandler(s, s.handler)
 		dr.wait()
 		if rst, _ := s.flags(); rst {
 			dr.sig["late-start-reset"] = true
+			if !wasRst {
+				dr.sig["stopped-by-mode-check"] = true
+			}
 		}
 	case "msg":
 		s := dr.streams[o.S]
@@ -638,7 +658,8 @@ func (dr *c13Driver) c13Next(auto bool) c13Op {
 		case x == 1:
 			k = "other"
 		}
-		return c13Op{Kind: "newstream", S: dr.nextID, SKind: k, Held: k == "in" && r.Chance(30)}
+		held := k == "in" && r.Chance(30)
+		return c13Op{Kind: "newstream", S: dr.nextID, SKind: k, Held: held, Neg: held && r.Bool()}
 	}
 	emit := func() c13Op {
 		x := r.Intn(100)
@@ -857,6 +878,8 @@ func c13Scripted() []struct {
 			{Kind: "emit", Reach: 0}, {Kind: "emit", Reach: 1}, {Kind: "newstream", S: 4, SKind: "in"}, {Kind: "msg", S: 4, Good: true}}},
 		{ModeAuto, false, []c13Op{{Kind: "emit", Reach: 1}, {Kind: "newstream", S: 1, SKind: "in", Held: true},
 			{Kind: "emit", Reach: 0}, {Kind: "start", S: 1}, {Kind: "msg", S: 1, Good: true}}},
+		{ModeAutoServer, false, []c13Op{{Kind: "newstream", S: 1, SKind: "in", Held: true, Neg: true}, {Kind: "emit", Reach: 2},
+			{Kind: "start", S: 1}, {Kind: "msg", S: 1, Good: true}}},
 		{ModeClient, false, []c13Op{{Kind: "emit", Reach: 1}, {Kind: "newstream", S: 1, SKind: "in"}}},
 		{ModeServer, false, []c13Op{{Kind: "emit", Reach: 2}, {Kind: "newstream", S: 1, SKind: "in"}, {Kind: "msg", S: 1, Good: true}}},
 		{ModeOpt(9), false, nil},
